@@ -4,7 +4,7 @@ import vlib, histlib
 def run(res, tier, seed, replay):
     res.cov["rule"] = ("real: the random histories of C02, plus synthetic targets at every byte alignment (0..15 mod 16), page-straddling and low-address entries, with __clear_cache interposed (it records the range and a copy of its content at call time); at every operation boundary each byte of a target entry or trampoline that differs "
                        "from the previous boundary must lie in a flushed range of that segment, and the LAST flush covering it must already have seen the final byte; the multiset of flush events (range, content) per segment "
-                       "equals the model's; distinct = distinct (lifetimes, op-kind set, repeated-target flag)")
+                       "equals the model's; plus one history per kind of target PLACEMENT in synthetic code arenas (page-aligned entry, page-straddling, low address, jmp-stub entry, odd alignments, trampoline forced to either end of the window, fake at the +-2 GiB edge); distinct = distinct (lifetimes, op-kind set, repeated-target flag)")
     res.cov["trusted_base"] = vlib.TRUSTED_COMMON + ["harness/real interposer of __clear_cache (a no-op on x86-64, so replacing it does not change behaviour)"]
     res.assumptions = ["the macOS sys_icache_invalidate path and the AArch64 dsb/isb pair are not built here (not modelled)"]
     vlib.proof_stage(res, "C17", thorough=(tier == "thorough"))
@@ -18,3 +18,6 @@ def run(res, tier, seed, replay):
     modes = [f"align{k}" for k in range(16)] + ["straddle"] * 6 + ["low"] * 2
     if tier == "thorough": modes = modes * 10
     histlib.check_histories(res, "c17", 0, seed + 170, "flush", extra_lines=[arenalib.gen(rr, f"a{i}", mode=m) for i, m in enumerate(modes)])
+    # every kind of target placement (page-aligned, straddling, low, forwarding stub, every alignment, deterministic trampoline at the window's ends, fake at the +-2 GiB edge)
+    import arenalib as _al, random as _rnd
+    histlib.check_histories(res, "c17", 0, seed + 171, "flush", extra_lines=_al.placement_suite(_rnd.Random(seed + 171), "pl", tier))
